@@ -103,6 +103,13 @@ def mutate_value(rng, v, u):
         return Con("VTuple", l + [l[0] if l else Con("VInt", 0)])
     if n == "VFset":
         l = list(v.args[0])
+        # 1 == True == 1.0 and 0 == False in Python: a set holding the int and a set holding the bool are EQUAL python
+        # objects of different content (element types differ); nothing keyed by the set itself may confuse them
+        for i, x in enumerate(l):
+            if x == Con("VInt", 1) and Con("VBool", True) not in l and rng.random() < 0.7:
+                return Con("VFset", l[:i] + [Con("VBool", True)] + l[i + 1:])
+            if x == Con("VInt", 0) and Con("VBool", False) not in l and rng.random() < 0.7:
+                return Con("VFset", l[:i] + [Con("VBool", False)] + l[i + 1:])
         if l:
             return Con("VFset", l[1:])
         return Con("VFset", [Con("VInt", 3)])
@@ -256,6 +263,8 @@ def gen_cases(rng, tier):
         fs = [FieldSpec("s", "Prop", ptype="fsetint"), FieldSpec("t", "Prop", ptype="fsetstr"), FieldSpec("u", "Prop", ptype="any")]
         u = Universe([ClassSpec("Leaf" + tag, None, fs)], "Color" + tag, rng.random() < 0.5, 800000 + rng.randint(0, 10**6))
         ints = rng.sample([0, 8, 16, 24, 32, 40, 1, 9], k=rng.randint(2, 5))
+        if rng.random() < 0.5 and 1 not in ints:
+            ints.append(1)
         strs = rng.sample(["a", "b", "c", "ab", "ba", "x:y", ""], k=rng.randint(2, 5))
         ints2, strs2 = ints[:], strs[:]
         rng.shuffle(ints2)
@@ -268,6 +277,14 @@ def gen_cases(rng, tier):
                         Con("P", "u", Con("VTuple", nv))], [])
         cases.append({"kind": "frozenset-order", "input": Con("C01", u.term(), leaf(1, ints, strs, nested), leaf(2, ints2, strs2, nested2)),
                       "digest_size": 8, "opts": {"universe": universe_to_json(u)}})
+        if 1 in ints:
+            # the same set with True in place of 1: an equal Python object, different content
+            def leafb(addr, i, s_):
+                return Con("N", addr, "Leaf" + tag, Con("ONo"),
+                           [Con("P", "s", Con("VFset", [Con("VBool", True) if x == 1 else Con("VInt", x) for x in i])),
+                            Con("P", "t", Con("VFset", [Con("VStr", x) for x in s_])), Con("P", "u", Con("VTuple", nested))], [])
+            cases.append({"kind": "frozenset-bool-int", "input": Con("C01", u.term(), leaf(1, ints, strs, nested), leafb(2, ints, strs)),
+                          "digest_size": 8, "opts": {"universe": universe_to_json(u)}})
     # separator-collision pairs
     for _ in range(20 if tier == "quick" else 400):
         u, p, q = collision_universe(rng)
